@@ -16,31 +16,40 @@
 (*   Reseed        y is re-seeded from the stored forward value            *)
 (*   AddCotangent  the cotangent of output k-1 is added after segment k    *)
 (*   UseBckOptions the segment is integrated with the backward options     *)
+(*   InheritFwd    options the caller did not give in bck_options are the  *)
+(*                 forward ones (method, rtol, atol, ... key by key)       *)
 (***************************************************************************)
 EXTENDS Naturals, Sequences, FiniteSets, TLC
-CONSTANTS MaxNT, Reseed, AddCotangent, UseBckOptions
-VARIABLES nt, tsReq, k,        \* k: time index the next segment starts from (nt down to 2); 1 = loop finished
+CONSTANTS MaxNT, Reseed, AddCotangent, UseBckOptions, InheritFwd
+\* effective backward configuration: key-wise override of the forward options by bck_options
+OptKeys == {"method", "rtol", "atol"}
+Effective(fwd, bck) == [key \in OptKeys |-> IF bck[key] # "unset" THEN bck[key] ELSE IF InheritFwd THEN fwd[key] ELSE "unset"]
+VARIABLES fwdO, bckO,         \* forward options and caller's bck_options: key -> "f" / "b" (a value given there) | "unset"
+          nt, tsReq, k,        \* k: time index the next segment starts from (nt down to 2); 1 = loop finished
           ySrc,                 \* where the y part of the augmented state came from: "stored" | "integrated"
           cot,                  \* indices of the outputs whose cotangent is contained in the running dL/dy
           gradTs,               \* indices of ts whose gradient has been recorded
           segs,                 \* sequence of [from, to, opts, ySrc] of the segments integrated so far
           done
-vars == <<nt, tsReq, k, ySrc, cot, gradTs, segs, done>>
+vars == <<fwdO, bckO, nt, tsReq, k, ySrc, cot, gradTs, segs, done>>
 Init == /\ nt \in 1..MaxNT /\ tsReq \in BOOLEAN
+        /\ fwdO \in [OptKeys -> {"f", "unset"}] /\ fwdO["method"] = "f"
+        /\ bckO \in [OptKeys -> {"b", "unset"}]
         /\ k = nt /\ ySrc = "stored" /\ cot = {nt} /\ gradTs = {} /\ segs = <<>> /\ done = FALSE
 Segment ==
    /\ ~done /\ k >= 2
-   /\ segs' = Append(segs, [from |-> k, to |-> k - 1, opts |-> IF UseBckOptions THEN "bck" ELSE "fwd", ySrc |-> ySrc])
+   /\ segs' = Append(segs, [from |-> k, to |-> k - 1, opts |-> IF UseBckOptions THEN "bck" ELSE "fwd", ySrc |-> ySrc,
+                             eff |-> IF UseBckOptions THEN Effective(fwdO, bckO) ELSE fwdO])
    /\ gradTs' = IF tsReq THEN gradTs \cup {k} ELSE gradTs
    /\ ySrc' = IF Reseed THEN "stored" ELSE "integrated"
    /\ cot' = IF AddCotangent THEN cot \cup {k - 1} ELSE cot
    /\ k' = k - 1
-   /\ UNCHANGED <<nt, tsReq, done>>
+   /\ UNCHANGED <<fwdO, bckO, nt, tsReq, done>>
 Finish ==
    /\ ~done /\ k = 1
    /\ gradTs' = IF tsReq THEN gradTs \cup {1} ELSE gradTs
    /\ done' = TRUE
-   /\ UNCHANGED <<nt, tsReq, k, ySrc, cot, segs>>
+   /\ UNCHANGED <<fwdO, bckO, nt, tsReq, k, ySrc, cot, segs>>
 Next == Segment \/ Finish
 Spec == Init /\ [][Next]_vars
 \* at the end every output's cotangent has been propagated, newest first, one segment per interval
@@ -49,5 +58,8 @@ SegmentsNewestFirst == \A i \in 1..Len(segs) : segs[i].from = nt - i + 1 /\ segs
 OneSegmentPerInterval == done => Len(segs) = nt - 1
 AlwaysReseeded == \A i \in 1..Len(segs) : segs[i].ySrc = "stored"
 BackwardOptions == \A i \in 1..Len(segs) : segs[i].opts = "bck"
+\* every option is the caller's backward value if given, else the forward value if given, else the solver default
+OptionInheritance == \A i \in 1..Len(segs) : \A key \in OptKeys :
+    segs[i].eff[key] = (IF bckO[key] = "b" THEN "b" ELSE IF fwdO[key] = "f" THEN "f" ELSE "unset")
 TimeGradients == done => gradTs = (IF tsReq THEN 1..nt ELSE {})
 =============================================================================
